@@ -458,5 +458,6 @@ Example C03_form_independent_bytes_nonvacuous :
   /\ map (fun b => unpack_bytes (pack_bytes (b_chunks b))) bs = map (fun b => DOk (b_chunks b)) bs.
 Proof.
   cbv zeta. split; [vm_compute; reflexivity|]. split; [vm_compute; reflexivity|]. split; [vm_compute; reflexivity|].
-  split; [vm_compute; repeat constructor|]. split; vm_compute; reflexivity.
+  split; [match goal with |- Forall hdr_ok ?l => let x := eval vm_compute in l in change l with x end; repeat constructor|].
+  split; vm_compute; reflexivity.
 Qed.
